@@ -93,11 +93,16 @@ pub fn interner_ops(data: &[u8]) -> Result<(), String> {
     sink("C12", |o| crate::p_list::intern_body(&InternCase { kind: *kind, ops }, o))
 }
 
-pub const TARGETS: [(&str, &str, fn(&[u8]) -> Result<(), String>); 6] = [
+/// (target, property whose thorough tier runs it, entry)
+pub const TARGETS: [(&str, &str, fn(&[u8]) -> Result<(), String>); 10] = [
     ("scale_decode", "C14", scale_decode),
     ("json_decode", "C14", json_decode),
     ("reg_struct", "C06", reg_struct),
+    ("reg_struct", "C07", reg_struct),
+    ("reg_struct", "C08", reg_struct),
     ("retain", "C10", retain),
+    ("retain", "C01", retain),
+    ("reg_struct", "C01", reg_struct),
     ("ident", "C18", ident),
     ("interner_ops", "C12", interner_ops),
 ];
@@ -128,4 +133,40 @@ impl Sub for FuzzSub {
 pub fn fuzz_subs(prop: &str) -> Vec<Box<dyn Sub>> {
     let leak = |s: String| -> &'static str { Box::leak(s.into_boxed_str()) };
     TARGETS.iter().filter(|(_, p, _)| *p == prop).map(|(n, _, f)| Box::new(FuzzSub { name: leak(format!("fuzz_{n}")), f: *f }) as Box<dyn Sub>).collect()
+}
+
+/// golden seeds for the libFuzzer corpora: small valid encodings / documents / strings
+pub fn write_seed_corpus(dir: &std::path::Path) -> std::io::Result<()> {
+    use proptest::strategy::{Strategy, ValueTree};
+    use proptest::test_runner::{Config, RngAlgorithm, TestRng, TestRunner};
+    let mut runner = TestRunner::new_with_rng(Config::default(), TestRng::from_seed(RngAlgorithm::ChaCha, &[7u8; 32]));
+    let mut regs: Vec<MReg> = vec![];
+    for i in 0..40 {
+        let s = if i % 2 == 0 { crate::genreg::reg_wf(6).boxed() } else { crate::genreg::reg_wild().boxed() };
+        let m = s.new_tree(&mut runner).unwrap().current();
+        if ref_enc(&m).len() <= 400 {
+            regs.push(m);
+        }
+    }
+    for t in ["scale_decode", "reg_struct", "retain", "json_decode", "ident", "interner_ops"] {
+        std::fs::create_dir_all(dir.join(t))?;
+    }
+    for (i, m) in regs.iter().enumerate() {
+        let enc = ref_enc(m);
+        std::fs::write(dir.join("scale_decode").join(format!("reg{i:02}.bin")), &enc)?;
+        std::fs::write(dir.join("reg_struct").join(format!("reg{i:02}.bin")), &enc)?;
+        if crate::model::wf_model(m).is_ok() {
+            let mut e = enc.clone();
+            e.extend_from_slice(&[0xa5, 0x5a, 0xff]);
+            std::fs::write(dir.join("retain").join(format!("reg{i:02}.bin")), &e)?;
+        }
+        std::fs::write(dir.join("json_decode").join(format!("reg{i:02}.json")), crate::refjson::to_json_ref(m).to_string())?;
+    }
+    for (i, s) in ["a", "r#a", "r#r#a", "_x9\nB", "r\n#", "é", "a::b", "A\nb\nc_1", ""].iter().enumerate() {
+        std::fs::write(dir.join("ident").join(format!("s{i}.txt")), s.replace("\\n", "\n"))?;
+    }
+    for (i, s) in [&[0u8, 1, 2, 1, 0x80, 0x88, 0xc0][..], &[1, 0, 0, 0, 9, 0x41, 0x8f], &[2, 5, 5, 6, 5, 0x85, 0xc1]].iter().enumerate() {
+        std::fs::write(dir.join("interner_ops").join(format!("o{i}.bin")), s)?;
+    }
+    Ok(())
 }
